@@ -355,18 +355,18 @@ def _small_exhaustive(pairs, m0s):
 def generate(rng, tier):
     yield {"edges": [], "m0": 2, "mode": "float"}
     # 1. all graphs on <= 5 labelled vertices x m0 x every tie-break sequence (quick: a seeded sample)
-    frac = 0.12 if tier == "quick" else 1.0
+    frac = 0.25 if tier == "quick" else 1.0
     for es, m0 in _small_exhaustive(PAIRS5, (2, 3, 4, 5)):
         if frac >= 1.0 or rng.random() < frac:
             yield _case(es, m0, mode="all")
     # 2. six vertices: a seeded sample (dense ones preferred: more overlap)
-    n6 = 150 if tier == "quick" else 3000
+    n6 = 100 if tier == "quick" else 1200
     for _ in range(n6):
         dens = rng.choice([0.5, 0.7, 0.85, 1.0])
         es = [p for p in PAIRS6 if rng.random() < dens]
-        yield _case(es, rng.choice([2, 3, 3, 4, 5, 6]), mode="all", cap=120)
+        yield _case(es, rng.choice([2, 3, 3, 4, 5, 6]), mode="all", cap=40 if tier == "quick" else 80)
     # 3. random graphs to 12 vertices, m0 below / at / above the clique number, random ranks
-    nrand = 500 if tier == "quick" else 6000
+    nrand = 400 if tier == "quick" else 4000
     for i in range(nrand):
         es = _random_graph(rng)
         if not es:
@@ -374,7 +374,7 @@ def generate(rng, tier):
         w = _clique_number(es)
         m0 = max(2, rng.choice([2, w - 2, w - 1, w - 1, w, w, w + 1, w + 3]))
         if i % 5 == 0:
-            yield _case(es, m0, mode="all", cap=24)
+            yield _case(es, m0, mode="all", cap=10 if tier == "quick" else 20)
         else:
             yield _case(es, m0, [rng.randint(0, 7) for _ in range(rng.randint(0, 30))])
     # 4. malformed stream
